@@ -284,6 +284,8 @@ def step (line : String) : String :=
         s!"{r.key.1}:{r.key.2}:{showType r.type}:{showRat r.ident}:{showRat r.cov1}:{showRat r.cov2}:{showBPairs (sortPairs r.diff1)}/{showBPairs (sortPairs r.diff2)}"
       s!"ov={c.overlapping} non={c.nonOverlapping} first={c.firstOnly} second={c.secondOnly} ROWS={";".intercalate rows}"
     | "CLUSTER" => ";".intercalate ((clusterIndels (kv.int "blur") (pCalls (kv.get "CALLS"))).map showCall)
+    | "INDELFILE" =>
+      ";".intercalate ((indelFile 30000 (pCalls (kv.get "INS")) (pCalls (kv.get "DEL"))).map showCall)
     | "CALL" =>
       match mkCall (kv.int "lo") (kv.int "chrom") (kv.int "qid") (kv.int "rs") (kv.int "re") (kv.int "qs") (kv.int "qe") with
       | none => "none"
